@@ -198,7 +198,10 @@ class REPEX_state:
 
         # lock and print the picked traj and ens
         pat_nums = [str(i.path_number) for i in inp_trajs]
-        self.locked.append((list(ens_nums), pat_nums))
+        # the job is on record with the ordinal of its random stream, so
+        # that a restart can hand the re-issued job the very same stream
+        ordinal = self.rgen.bit_generator._seed_seq.n_children_spawned
+        self.locked.append((list(ens_nums), pat_nums, ordinal))
         if self.printing():
             self.print_pick(ens_nums, pat_nums, self.cworker)
         picked = {}
@@ -244,7 +247,9 @@ class REPEX_state:
 
         enss = []
         trajs = []
-        enss0, trajs0 = self.locked0.pop(0)
+        entry0 = self.locked0.pop(0)
+        enss0, trajs0 = entry0[0], entry0[1]
+        ordinal0 = entry0[2] if len(entry0) > 2 else None
         logger.info("pick locked!")
         for ens, traj in zip(enss0, trajs0):
             enss.append(ens - self._offset)
@@ -252,13 +257,27 @@ class REPEX_state:
             self.swap(traj_idx, ens)
             self.lock(ens)
             trajs.append(self._trajs[ens])
-        # keep the re-issued job on record for the next restart file
-        self.locked.append((list(enss), list(trajs0)))
         if self.printing():
             self.print_pick(tuple(enss), tuple(trajs0), self.cworker)
         picked = {}
 
-        child_rng = spawn_rng(self.rgen)
+        if ordinal0 is None:
+            # restart file without job ordinals: the job gets a new stream
+            ordinal0 = self.rgen.bit_generator._seed_seq.n_children_spawned
+            child_rng = spawn_rng(self.rgen)
+        else:
+            # the same job gets the same stream as before the stop; the
+            # spawn counter (jobs issued so far) is not advanced.
+            child_rng = type(self.rgen)(
+                type(self.rgen.bit_generator)(
+                    seed=np.random.SeedSequence(
+                        entropy=self.rgen.bit_generator._seed_seq.entropy,
+                        spawn_key=(int(ordinal0),),
+                    )
+                )
+            )
+        # keep the re-issued job on record for the next restart file
+        self.locked.append((list(enss), list(trajs0), int(ordinal0)))
         for ens_num, inp_traj in zip(enss, trajs):
             ens_pick = self.ensembles[ens_num + 1]
             ens_pick["rgen"] = spawn_rng(child_rng)
@@ -754,7 +773,11 @@ class REPEX_state:
         locked_ep = []
         for tup in self.locked:
             locked_ep.append(
-                ([int(tup0 + self._offset) for tup0 in tup[0]], tup[1])
+                (
+                    [int(tup0 + self._offset) for tup0 in tup[0]],
+                    tup[1],
+                    int(tup[2]),
+                )
             )
         self.config["current"]["locked"] = locked_ep
         self.config["current"]["rng_state"] = self.rgen.bit_generator.state
